@@ -4,6 +4,8 @@
 //! (shardable) monitor in-process and print one JSON report.
 
 mod chunkcheck;
+#[cfg(feature = "arc")]
+mod conc;
 mod exec;
 mod inst;
 mod lexcheck;
@@ -103,6 +105,34 @@ fn real_main() {
                 Ok(v) => println!("{v}"),
                 Err(p) => println!("{}", json!({"panic": panics::to_json(&p)})),
             }
+        }
+        #[cfg(feature = "arc")]
+        "conc" => {
+            // kvrun conc <seed> <rounds> <max ops per thread> <inject yields 0|1>
+            let seed: u64 = args.get(2).and_then(|s| s.parse().ok()).unwrap_or(1);
+            let rounds: u64 = args.get(3).and_then(|s| s.parse().ok()).unwrap_or(20);
+            let max_ops: usize = args.get(4).and_then(|s| s.parse().ok()).unwrap_or(300);
+            let yields = args.get(5).map(|s| s == "1").unwrap_or(true);
+            println!("{}", conc::run(seed, rounds, max_ops, yields));
+        }
+        #[cfg(feature = "arc")]
+        "conc-round" => {
+            // kvrun conc-round <mix> <threads> <ops> <round seed> <inject yields 0|1> <repeats>
+            let mix = conc::mix_from_name(args.get(2).map(|s| s.as_str()).unwrap_or("")).expect("mix name");
+            let threads: usize = args.get(3).and_then(|s| s.parse().ok()).unwrap_or(2);
+            let ops: usize = args.get(4).and_then(|s| s.parse().ok()).unwrap_or(100);
+            let seed: u64 = args.get(5).and_then(|s| s.parse().ok()).unwrap_or(1);
+            let yields = args.get(6).map(|s| s == "1").unwrap_or(true);
+            let repeats: u64 = args.get(7).and_then(|s| s.parse().ok()).unwrap_or(1);
+            conc::install_panic_hook();
+            let mut faults = Vec::new();
+            for _ in 0..repeats {
+                if let Err(f) = conc::run_round(mix, threads, ops, seed, yields) {
+                    faults.push(f);
+                    break;
+                }
+            }
+            println!("{}", json!({"faults": faults}));
         }
         "format-grid" => match panics::guarded(strcheck::format_grid) {
             Ok(v) => println!("{v}"),
